@@ -1,6 +1,7 @@
 from flexstack.geonet.gbc_extended_header import GBCExtendedHeader
 from flexstack.geonet.guc_extended_header import GUCExtendedHeader
 from flexstack.geonet.common_header import CommonHeader
+from flexstack.geonet.service_access_point import CommonNH, LocationServiceHST, TrafficClass
 
 """Spec functions for the GeoNetworking headers (pure Python: executed symbolically by pyvc and natively at replay).
 Written from the property statements and the wire-format tables in DESIGN.md Appendix A, not from the code."""
@@ -59,13 +60,13 @@ def tc_int(tc):
 
 def common_header_valid(h):
     return (tc_valid(h.tc) and 0 <= h.flags <= 255 and 0 <= h.pl <= 65535 and 0 <= h.mhl <= 255
-            and h.reserved == 0)
+            and 0 <= h.reserved <= 255)
 
 
 def common_header_int(h):
     """nh:4 reserved:4 ht:4 hst:4 tc:8 flags:8 pl:16 mhl:8 reserved:8"""
     return (h.nh.value * 2 ** 60 + h.ht.value * 2 ** 52 + h.hst.value * 2 ** 48 + tc_int(h.tc) * 2 ** 40
-            + h.flags * 2 ** 32 + h.pl * 2 ** 16 + h.mhl * 2 ** 8)
+            + h.flags * 2 ** 32 + h.pl * 2 ** 16 + h.mhl * 2 ** 8 + h.reserved)
 
 
 def gn_addr_int(a):
@@ -128,31 +129,31 @@ def st_field(data, off):
 
 
 def ext_valid(h):
-    return 0 <= h.sn < 2 ** 16 and h.reserved == 0 and lpv_valid(h.so_pv)
+    return 0 <= h.sn < 2 ** 16 and 0 <= h.reserved < 2 ** 16 and lpv_valid(h.so_pv)
 
 
 def gbc_valid(h):
     return (ext_valid(h) and -2 ** 31 <= h.latitude < 2 ** 31 and -2 ** 31 <= h.longitude < 2 ** 31
-            and 0 <= h.a < 2 ** 16 and 0 <= h.b < 2 ** 16 and 0 <= h.angle < 2 ** 16 and h.reserved2 == 0)
+            and 0 <= h.a < 2 ** 16 and 0 <= h.b < 2 ** 16 and 0 <= h.angle < 2 ** 16 and 0 <= h.reserved2 < 2 ** 16)
 
 
 def gbc_int(h):
     """sn:16 reserved:16 SO PV(24) area_lat:s32 area_lon:s32 a:16 b:16 angle:16 reserved:16"""
-    return (h.sn * 2 ** 336 + lpv_int(h.so_pv) * 2 ** 128 + u(h.latitude, 32) * 2 ** 96 + u(h.longitude, 32) * 2 ** 64
-            + h.a * 2 ** 48 + h.b * 2 ** 32 + h.angle * 2 ** 16)
+    return (h.sn * 2 ** 336 + h.reserved * 2 ** 320 + lpv_int(h.so_pv) * 2 ** 128 + u(h.latitude, 32) * 2 ** 96
+            + u(h.longitude, 32) * 2 ** 64 + h.a * 2 ** 48 + h.b * 2 ** 32 + h.angle * 2 ** 16 + h.reserved2)
 
 
 def tsb_int(h):
-    return h.sn * 2 ** 208 + lpv_int(h.so_pv)
+    return h.sn * 2 ** 208 + h.reserved * 2 ** 192 + lpv_int(h.so_pv)
 
 
 def guc_int(h):
     """sn:16 reserved:16 SO PV(24) DE PV(20)"""
-    return h.sn * 2 ** 368 + lpv_int(h.so_pv) * 2 ** 160 + spv_int(h.de_pv)
+    return h.sn * 2 ** 368 + h.reserved * 2 ** 352 + lpv_int(h.so_pv) * 2 ** 160 + spv_int(h.de_pv)
 
 
 def ls_request_int(h):
-    return h.sn * 2 ** 272 + lpv_int(h.so_pv) * 2 ** 64 + gn_addr_int(h.request_gn_addr)
+    return h.sn * 2 ** 272 + h.reserved * 2 ** 256 + lpv_int(h.so_pv) * 2 ** 64 + gn_addr_int(h.request_gn_addr)
 
 
 def hst_known(ht, hst):
@@ -279,3 +280,59 @@ def common_bytes(nh, ht, hst, tc, mobile, pl, mhl):
     """the 8 octets of the Common Header with these field values (reserved zero, mobility flag = MSB of flags)"""
     return common_header_int(CommonHeader(nh=nh, reserved=0, ht=ht, hst=hst, tc=tc, flags=mobile * 128, pl=pl,
                                           mhl=mhl)).to_bytes(8, "big")
+
+
+# --------------------------------------------------------------------------- receiver / forwarder operations
+def n_updates():
+    return len(ghost("lt_updates"))
+
+
+def own_mid(router):
+    return router.mib.itsGnLocalGnAddr.mid.mid
+
+
+def lpv_conformant(data, off):
+    """the Long PV image at data[off:off+24] has its reserved GN_ADDR bits zero and a known station type"""
+    return bits(be(data, off, 2), 0, 10) == 0 and st_field(data, off) <= 12
+
+
+def basic_bytes_rhl(basic, rhl):
+    """Basic Header octets with the remaining hop limit replaced by rhl"""
+    return (basic_header_int(basic) - basic.rhl + rhl).to_bytes(4, "big")
+
+
+def indication_ok(ind, common, basic, so_pv_off, packet, payload_off):
+    """the upper-layer indication carries the payload, source PV, upper protocol and hop/lifetime info of the packet"""
+    return (ind.data == packet[payload_off:] and ind.length == len(packet[payload_off:])
+            and lpv_of_bytes_ok(ind.source_position_vector, packet, so_pv_off)
+            and ind.upper_protocol_entity == common.nh and ind.traffic_class == common.tc
+            and ind.remaining_hop_limit == basic.rhl
+            and ind.remaining_packet_lifetime == float(lt_ms(basic.lt) // 1000))
+
+
+def n_timers():
+    return len(ghost("timers_started"))
+
+
+def timer0_packet():
+    """the packet a contention-based-forwarding timer will transmit when it fires"""
+    return timer_arg(ghost("timers_started")[0], 1)
+
+
+def n_emitted():
+    """frames sent now plus frames buffered for contention-based forwarding"""
+    return n_sent() + n_timers()
+
+
+def emitted0():
+    return sent0() if n_sent() == 1 else timer0_packet()
+
+
+def gbc_area_of(packet):
+    """(shape-independent) area fields of the GBC/GAC extended header at the start of packet"""
+    return (sgn(be(packet, 28, 4), 32), sgn(be(packet, 32, 4), 32), be(packet, 36, 2), be(packet, 38, 2), be(packet, 40, 2))
+
+
+def n_ls_requests():
+    """location-service lookups started (calls of gn_ls_request) during this operation"""
+    return len(ghost("ls_requests"))
